@@ -70,6 +70,8 @@ def items(tier: str, seed: int) -> list[Any]:
     cap = 3000 if quick else 40000
 
     def add(frames: list[tuple[str, int]], pname: str, seg: Any, ack_ms: int = 1000, b: int = bound) -> None:
+        if seg == "bytes":
+            b = min(b, 1)  # one choice point per byte: bound 2 would square an already long menu
         out.append(({"proto": "hsfz", "frames": frames, "program": PROGRAMS[pname], "seg": seg, "ack_timeout_ms": ack_ms}, b, cap))
 
     for pname, nw in (("wr", 1), ("r", 0), ("ww", 2), ("wrwr", 2)):
